@@ -24,7 +24,7 @@ Print Assumptions C09_session_gate.
 Theorem C09_request_gate : forall T K c req script,
   let '(evs, oresp, script') := handle_batch T K c req script in
   if cleared T c req then
-    evs = (if has_creds T req then [EReqAuth (req_auth_val T req) true] else []) ++ calls T c (rauth_of T req) (req_items T req) /\
+    evs = (if has_creds T req then [EReqAuth (req_auth_val T req) true] else []) ++ calls T c (rauth_of T c req) (req_items T req) /\
     oresp = Some (build_response T c req
               (map (fun p => response_item T K (fst p) (snd p))
                    (combine (req_items T req) (outcomes T K c (req_items T req) script))))
@@ -34,7 +34,7 @@ Print Assumptions C09_request_gate.
 
 (* credentials without a configured callback, or rejected by it, are never cleared *)
 Theorem C09_not_cleared : forall T c req,
-  has_creds T req = true -> (c_req_auth c = false \/ req_auth_fn T (req_auth_val T req) = None) -> cleared T c req = false.
+  has_creds T req = true -> (c_req_auth c = false \/ req_auth_fn T (c_sid c) (req_auth_val T req) = None) -> cleared T c req = false.
 Proof.
   intros T c req Hc [H|H]; unfold cleared; rewrite Hc, H; cbn [negb orb andb]; rewrite ?andb_false_r; reflexivity.
 Qed.
@@ -48,6 +48,6 @@ Theorem C09_context : forall c t, trace_ok c t ->
 Proof. exact trace_ok_calls. Qed.
 Print Assumptions C09_context.
 
-Theorem C09_rauth_nil_without_credentials : forall T req, has_creds T req = false -> rauth_of T req = None.
-Proof. intros T req H. unfold rauth_of. rewrite H. reflexivity. Qed.
+Theorem C09_rauth_nil_without_credentials : forall T c req, has_creds T req = false -> rauth_of T c req = None.
+Proof. intros T c req H. unfold rauth_of. rewrite H. reflexivity. Qed.
 Print Assumptions C09_rauth_nil_without_credentials.
